@@ -549,10 +549,16 @@ def eigh_routine(ctx):
       if ridge_t is None:
         continue
       env['ridge'] = ridge_t
-      inv_e = f'jnp.where({e_src} == 0.0, 0.0, jnp.power(jnp.maximum({e_src}, ridge), -1.0 / p))'
-      exp_x = spec_term(ev, f'jnp.matmul(u * jnp.sqrt({inv_e}), (u * jnp.sqrt({inv_e})).T)', env)
+      # inv_e = where(G, 0, max(e, ridge)^(-1/p)): the power arm by formula, the guard G by what it selects at four points
+      pw_exp = spec_term(ev, f'jnp.power(jnp.maximum({e_src}, ridge), -1.0 / p)', env)
+      e_term = spec_term(ev, e_src, env)
+      W = _guarded_inverse_power(ctx, fi, x, pw_exp, e_term, ridge_t, f'[pad={pad},rel={rel}]', cmpr)
+      if W is None:
+        continue
+      env['W'] = W
+      exp_x = spec_term(ev, 'jnp.matmul(u * jnp.sqrt(W), (u * jnp.sqrt(W)).T)', env)
       ctx.ob('C01.E1', fi.short, f'root[pad={pad},rel={rel}]', cmpr.same(x, exp_x),
-             f'X must be (u sqrt(inv_e))(u sqrt(inv_e))^T with inv_e = where(e == 0, 0, max(e, ridge)^(-1/p)); got `{cmpr.fmt(x)}`',
+             f'X must be (u sqrt(inv_e))(u sqrt(inv_e))^T with inv_e = where(<zero guard>, 0, max(e, ridge)^(-1/p)); got `{cmpr.fmt(x)}`',
              ctx.loc(fi), sample='X = U diag(max(e,ridge)^(-1/p)) U^T')
       err_src = f'jnp.matmul(u.T, jnp.matmul(reg, u)) - jnp.diag({e_src})'
       if pad:
@@ -630,6 +636,49 @@ def regularised_input(ctx):
           ctx.ob('C01.E2', fi.short, f'error[pad={pad},rel={rel}]', cmpr.same(err, exp_err),
                  f'error must be max|u^T A u - diag(e)| of the same decomposition; got `{cmpr.fmt(err)[:300]}`', ctx.loc(fi),
                  sample='err = max|U^T A U - diag(e)|')
+
+
+def _guarded_inverse_power(ctx, fi, x, pw_exp, e_term, ridge_t, tag, cmpr):
+  """Find inv_e = select(G, 0, P) in x with P the documented power max(e, ridge)^(-1/p), and decide the guard G by
+  point evaluation (ideal.py): it must select 0 whenever the clamped base max(e, ridge) is not positive - an exactly zero
+  (padded) eigenvalue, and a zero or slightly negative eigenvalue under a zero ridge (0 ** negative is inf, and the
+  residual-based error figure does not notice) - and must select the power whenever the base is positive, including a
+  negative eigenvalue lifted by a positive ridge.  Returns the select term or None (reported)."""
+  from ..ideal import Point
+  cands = []
+  for c in walk(x):
+    sa = select_arms(c)
+    if sa is None:
+      continue
+    for zero_arm, pow_arm, zero_is_true in ((sa[2], sa[3], True), (sa[3], sa[2], False)):
+      z_ = strip_casts(zero_arm)
+      if (is_const(z_, 0, 0.0) or is_ext_call(z_, 'jax.numpy.zeros_like', 'jax.numpy.zeros')) and cmpr.same(pow_arm, pw_exp):
+        cands.append((c, sa[1], zero_is_true))
+  cands = list(dict.fromkeys(cands))
+  ctx.ob('C01.E1', fi.short, f'inverse power under a zero guard {tag}', len(cands) == 1,
+         f'the eigenvalue power max(e, ridge)^(-1/p) must appear exactly once, as the non-zero arm of a select against 0; found {len(cands)}',
+         ctx.loc(fi), sample='inv_e = where(G, 0, max(e, ridge)^(-1/p))')
+  if len(cands) != 1:
+    return None
+  W, G, zero_is_true = cands[0]
+  points = [('e = 0 (padded / null direction)', 0.0, 'pos', True), ('e = 0, ridge = 0', 0.0, 0.0, True),
+            ('e < 0, ridge = 0 (rounding noise of a singular matrix)', -1.0, 0.0, True),
+            ('e > 0', 'pos', 'pos', False), ('e > 0, ridge = 0', 'pos', 0.0, False),
+            ('e < 0, ridge > 0 (noise below a positive ridge: the true eigenvalue of A + dI is at least d)', -1.0, 'pos', False)]
+  for what, ev_, rv_, want_zero in points:
+    val = lambda v: 'pos' if v == 'pos' else ('num', v)
+    leaf = lambda t, ev_=ev_, rv_=rv_: (val(ev_) if t is e_term else (val(rv_) if t is ridge_t else None))
+    g = Point(leaf).ival(G)
+    decided = g is not None and g not in ('pos', 'orth', 'indet') and g[0] in ('bool', 'num')
+    picks_zero = decided and (bool(g[1]) == zero_is_true)
+    if what.startswith('e = 0 (padded') and not decided:
+      # e == 0 with a positive ridge: the clamp makes the base positive, either arm is finite; only an explicit e == 0 test decides it
+      continue
+    ctx.ob('C01.E1', fi.short, f'zero guard at `{what}` {tag}', decided and picks_zero == want_zero,
+           f'at {what} the guard `{show(G, maxdepth=4)[:100]}` ' + ('must select 0 (the base max(e, ridge) is not positive: its inverse power is inf, '
+           'which the residual-based error figure does not report)' if want_zero else 'must keep the root (the base is positive)') +
+           f'; it evaluates to {g}', ctx.loc(fi), sample=f'{what}: {"0" if want_zero else "power"}')
+  return W
 
 
 def provenance(ctx):
